@@ -200,6 +200,31 @@ def check(ctx: Ctx) -> list[RuleResult]:
         r3.fail(f"{isd.short}:not-dated-without-io", isd.loc(), "with force_io=True, _is_dated() can answer 'not dated' from the cached change counter, without any RQ|0006: a schedule changed at the controller since the last read is not noticed and the cached schedule is served", [tab.describe({k: v for k, v in a.items() if k != "__effects__"})[:300], f"calls made: {list(a['__effects__'])}"])
     else:
         r3.ok({"_is_dated(force_io=True)": "every 'not dated' answer follows an I/O read of the change counter", "rows": n_forced})
+    # a version query that fails must fail the caller: around the RQ|0006 send in _schedule_version there is no handler that can
+    # swallow a protocol error (a handler that re-raises on every path is fine) - else a lost RQ|0006 is answered from the cached
+    # counter and reported as `did_io=True`
+    sv = repo.func("ramses_rf.system.heat.ScheduleSync._schedule_version")
+    sends = [n for n in own_nodes(sv.node) if isinstance(n, ast.Await) and isinstance(n.value, ast.Call) and norm(n.value.func).endswith("async_send_cmd")]
+    if not sends:
+        raise AnalysisError("_schedule_version: the RQ|0006 send was not found")
+    for snd in sends:
+        r3.instances += 1
+        r3.nontrivial += 1
+        swallow = None
+        p2 = getattr(snd, "parent", None)
+        child: ast.AST = snd
+        while p2 is not None and not isinstance(p2, (ast.FunctionDef, ast.AsyncFunctionDef)):
+            if isinstance(p2, ast.Try) and any(child is b or child in ast.walk(b) for b in p2.body):
+                for h in p2.handlers:
+                    classes = ctx.handler_classes(sv, h)
+                    if any(ctx.is_sub("ramses_tx.exceptions.ProtocolError", c) or ctx.is_sub(c, "ramses_tx.exceptions.ProtocolError") for c in classes):
+                        if not _always_raises(h.body):
+                            swallow = h
+            child, p2 = p2, getattr(p2, "parent", None)
+        if swallow is not None:
+            r3.fail(f"{sv.short}:version-query-error-swallowed", sv.loc(swallow), "a protocol error from the RQ|0006 exchange can be swallowed in _schedule_version: a forced fetch whose version query was lost returns the cached change counter (and the cached schedule) instead of an error")
+        else:
+            r3.ok({"RQ|0006 send": "protocol errors propagate to the caller"})
     out.append(r3)
 
     # ---- R4 ---------------------------------------------------------------------------
@@ -225,3 +250,14 @@ def check(ctx: Ctx) -> list[RuleResult]:
             r4.fail(f"{hm.short}:unguarded-update", hm.loc(u.ast), "an overheard fragment is merged into the payload set without testing who holds the transfer lock")
     out.append(r4)
     return out
+
+
+def _always_raises(body: list[ast.stmt]) -> bool:
+    if not body:
+        return False
+    last = body[-1]
+    if isinstance(last, ast.Raise):
+        return True
+    if isinstance(last, ast.If) and last.orelse:
+        return _always_raises(last.body) and _always_raises(last.orelse)
+    return False
